@@ -120,6 +120,9 @@ func (g *Gen) describeValue(v ssa.Value) string {
 		return st.Field(x.Field).Name()
 	case *ssa.Extract:
 		return "extract"
+	case *ssa.Lookup:
+		// m[k1][k2] = v: the inner map is "m[]"
+		return g.describeValue(x.X) + "[]"
 	}
 	return "?"
 }
